@@ -100,7 +100,7 @@ func (d *tDecoder) Decode(b []byte, base unsafe.Pointer, sd *structDesc, maxdept
 
 		f := sd.GetField(fid)
 		if f == nil || f.Type.WT != tp {
-			n, err := thrift.Binary.Skip(b[i:], thrift.TType(tp))
+			n, err := skipValue(b[i:], tp)
 			if err != nil {
 				return i, fmt.Errorf("skip unknown field %d of struct %s err: %w", fid, sd.rt.String(), err)
 			}
@@ -145,6 +145,19 @@ func (d *tDecoder) Decode(b []byte, base unsafe.Pointer, sd *structDesc, maxdept
 		*(*[]byte)(unsafe.Add(base, sd.unknownFieldsOffset)) = ufs.Copy(b)
 	}
 	return i, nil
+}
+
+// skipValue skips one value of wire type tp at the start of b.
+// thrift.Binary.Skip indexes a table with the type byte as an int8, so a type
+// byte >= 0x80 - at the top level or nested inside the value - makes it panic
+// instead of failing; malformed input must never crash the decoder.
+func skipValue(b []byte, tp ttype) (n int, err error) {
+	defer func() {
+		if r := recover(); r != nil {
+			n, err = 0, thrift.NewProtocolException(thrift.INVALID_DATA, fmt.Sprintf("invalid data type in skipped value: %v", r))
+		}
+	}()
+	return thrift.Binary.Skip(b, thrift.TType(tp))
 }
 
 func decodeFixedSizeTypes(t ttype, b []byte, p unsafe.Pointer) int {
